@@ -84,6 +84,10 @@ func Run(A Matrix, b Vector, args ...interface{}) (Vector, error) {
     if n1, m1 := inSitu.A.Dims(); n1 != n || m1 != m {
       return nil, fmt.Errorf("r has invalid dimension (%dx%d instead of %dx%d)", n1, m1, n, m)
     }
+    // a re-used buffer still holds the matrix of the previous call
+    if inSitu.A != A {
+      inSitu.A.Set(A)
+    }
   }
   if inSitu.X == nil {
     inSitu.X = NullDenseVector(t, n)
